@@ -364,9 +364,8 @@ func runMerge(c *mergeCase) (line, impl string, fails []*failure, labels []strin
 		labels = append(labels, "b:oracle-only(decoder-rejects)")
 		return "!" + head, "-", fails, labels, nil
 	}
-	if ft.hasKern && ft.gpos == nil {
-		labels = append(labels, "b:oracle-only(kern)")
-		return "!" + head, "-", fails, labels, nil
+	if ft.kern != nil {
+		labels = append(labels, "b:kern-derived-gpos")
 	}
 	tsx, terr := ft.tablesSx(false, nil, nil)
 	if terr != nil {
